@@ -113,6 +113,12 @@ def _open_seq():
         namedtype.NamedType('blob', univ.Any(), openType=opentype.OpenType('id', {1: univ.Integer(), 2: univ.OctetString()}))))
 
 
+def _rec(cls, *members):
+    from pyasn1.type import namedtype
+    return cls(componentType=namedtype.NamedTypes(*[
+        (namedtype.OptionalNamedType if m[2:] == ('opt',) else namedtype.NamedType)(m[0], m[1]) for m in members]))
+
+
 def _huge_specs():
     from pyasn1.type import constraint, namedtype, namedval
     return {
@@ -126,6 +132,20 @@ def _huge_specs():
             namedtype.NamedType('a', univ.Integer().subtype(subtypeSpec=constraint.ValueRangeConstraint(0, 10))),
             namedtype.OptionalNamedType('b', univ.OctetString()))),
         'OCTET STRING': univ.OctetString(),
+        'SEQUENCE { a INTEGER }': _rec(univ.Sequence, ('a', univ.Integer())),
+        'SEQUENCE { a INTEGER, b BOOLEAN OPTIONAL }': _rec(univ.Sequence, ('a', univ.Integer()), ('b', univ.Boolean(), 'opt')),
+        'SET { a INTEGER, b BOOLEAN }': _rec(univ.Set, ('a', univ.Integer()), ('b', univ.Boolean())),
+        'SEQUENCE { a ENUMERATED, b BIT STRING OPTIONAL, c OBJECT IDENTIFIER OPTIONAL, d REAL OPTIONAL }': _rec(
+            univ.Sequence, ('a', univ.Enumerated()), ('b', univ.BitString(), 'opt'), ('c', univ.ObjectIdentifier(), 'opt'),
+            ('d', univ.Real(), 'opt')),
+        'SET { b BIT STRING OPTIONAL, c OBJECT IDENTIFIER OPTIONAL, d REAL OPTIONAL, e BOOLEAN }': _rec(
+            univ.Set, ('b', univ.BitString(), 'opt'), ('c', univ.ObjectIdentifier(), 'opt'), ('d', univ.Real(), 'opt'),
+            ('e', univ.Boolean())),
+        'SEQUENCE OF INTEGER': univ.SequenceOf(componentType=univ.Integer()),
+        'SET OF OBJECT IDENTIFIER': univ.SetOf(componentType=univ.ObjectIdentifier()),
+        'CHOICE { a INTEGER, c OBJECT IDENTIFIER, e BOOLEAN }': univ.Choice(componentType=namedtype.NamedTypes(
+            namedtype.NamedType('a', univ.Integer()), namedtype.NamedType('c', univ.ObjectIdentifier()),
+            namedtype.NamedType('e', univ.Boolean()))),
         'SEQUENCE { id INTEGER, blob ANY DEFINED BY id } resolved': (_open_seq(), {'decodeOpenTypes': True}),
     }
 
@@ -160,7 +180,69 @@ def huge_integer_inputs():
     out.append(tlv(b'\x06', b'\x2b' + b'\xff' * 2100 + b'\x7f'))
     out.append(tlv(b'\x09', b'\x80\x00' + b'\x7f' + b'\xff' * (big - 1)))
     out.append(tlv(b'\x30', tlv(b'\x09', b'\x80\x00' + b'\x7f' + b'\xff' * (big - 1))))
+    # the huge element as a member that was already accepted when something else goes wrong with its container (one
+    # member too many, a member of the wrong type, a repeated member, a member missing, no end-of-octets), in both
+    # length forms: whatever the decoder then says about the container must not need the element printed
+    leaves = [tlv(b'\x02', pos), tlv(b'\x02', neg), tlv(b'\x0a', pos), tlv(b'\x03', b'\x00' + b'\xff' * big),
+              tlv(b'\x06', b'\x2b' + b'\xff' * 2100 + b'\x7f'), tlv(b'\x09', b'\x80\x00' + b'\x7f' + b'\xff' * (big - 1))]
+    small, boolean = b'\x02\x01\x01', b'\x01\x01\xff'
+    for h in leaves:
+        for ctag in (b'\x30', b'\x31'):
+            for contents in (h, h + small, h + h, h + boolean, boolean + h, h + boolean + small, h + b'\x04\x00', small + h,
+                             h + boolean + boolean, h + b'\x05'):
+                out.append(tlv(ctag, contents))
+                out.append(ctag + b'\x80' + contents + b'\x00\x00')
+                out.append(ctag + b'\x80' + contents)
     return out
+
+
+BLOB_SUBSTITUTES = [b'\x00\x00', b'\x00\x00\x00\x00', b'', b'\x00', b'\x04', b'\x04\x80', b'\x04\x80\x00\x00', b'\x24\x80\x00\x00',
+                    b'\x24\x80', b'\x05\x00', b'\x30\x80\x00\x00', b'\x30\x00', b'\x04\x01', b'\x02\x00', b'\x00\x01\x00',
+                    b'\x04\x01\x41\x00\x00', b'\x00\x00\x04\x01\x41', b'\x1f']
+_BLOB_INPUTS = []
+
+
+def opentype_blob_inputs():
+    """-> [(octets, case token, schema)]: containers with an open-type field (c18's declarations: SEQUENCE / SET,
+    INTEGER / OID governor, single / SEQUENCE OF / SET OF, untagged / IMPLICIT / EXPLICIT ANY), assembled by hand in
+    every mix of definite and indefinite length forms per level (container, SEQUENCE OF / SET OF field, tag wrapper of
+    the ANY - the library's encoder only writes one form throughout), the open-type octets being each of
+    BLOB_SUBSTITUTES (alone, and after a good element)"""
+    if _BLOB_INPUTS:
+        return _BLOB_INPUTS
+    from . import c18
+
+    def tlv(tag, content, indef=False):
+        if indef:
+            return tag + b'\x80' + content + b'\x00\x00'
+        n = len(content)
+        return tag + (bytes([n]) if n < 128 else b'\x81' + bytes([n])) + content
+
+    for container in ('seq', 'set'):
+        for govkind in ('int', 'oid'):
+            for shape in ('single', 'seqof', 'setof'):
+                for anytag in ('untagged', 'implicit', 'explicit'):
+                    if container == 'set' and anytag == 'untagged':
+                        continue
+                    tmap = ((c18.gov_value(govkind, 0), ('octs',)), (c18.gov_value(govkind, 1), ('seq', (('a', ('int',), 'req', None),))))
+                    try:
+                        sch = c18.make_schema(container, govkind, shape, anytag, tmap)
+                    except Exception:
+                        continue
+                    token = ('opentype', container, govkind, shape, anytag, tmap)
+                    wrappers = [None] if anytag == 'untagged' else [(b'\xdf\x87\x6a', False), (b'\xff\x87\x6a', False), (b'\xff\x87\x6a', True)]
+                    for cform, fform, wrap in itertools.product((False, True), (False, True) if shape != 'single' else (False,), wrappers):
+                        for si, sub in enumerate(BLOB_SUBSTITUTES):
+                            for lead, gi in itertools.product((False,) if shape == 'single' or si > 6 else (False, True), (0, 1)):
+                                gov = b'\xdf\x87\x68' + ((b'\x01' + bytes([gi + 1])) if govkind == 'int' else (b'\x03\x2b\x06' + bytes([gi + 1])))
+                                el = lambda x: x if wrap is None else tlv(wrap[0], x, wrap[1])
+                                if shape == 'single':
+                                    field = el(sub)
+                                else:
+                                    field = tlv(b'\x30' if shape == 'seqof' else b'\x31',
+                                                (el(b'\x04\x01\x41') if lead else b'') + el(sub), fform)
+                                _BLOB_INPUTS.append((tlv(b'\x30' if container == 'seq' else b'\x31', gov + field, cform), token, sch))
+    return _BLOB_INPUTS
 
 
 class CountingBytesIO(io.BytesIO):
@@ -533,6 +615,14 @@ def run_shard(shard, tier, seed):
             for name in ('[0] EXPLICIT INTEGER', 'SEQUENCE { a [0] EXPLICIT INTEGER }'):
                 run_input(res, sc, data, name, CUSTOM_SPECS[name](), 'eoo-inside-definite')
             res.see('eoo-inside-definite-inputs')
+        # (xi) open-type fields whose octets are not one well-formed element: an end-of-octets marker, nothing, a cut
+        # header, an element of another type, an indefinite-length element without its end - inside definite and
+        # indefinite containers, every declaration of the open-type field, resolution switched on
+        for j, (data, token, sch) in enumerate(opentype_blob_inputs()):
+            if j % shard['nshards'] != shard['shard']:
+                continue
+            run_input(res, sc, data, token, (sch, {'decodeOpenTypes': True}), 'open-type-blob')
+            res.see('open-type-blob-inputs')
         # (x) growth of the step count: the same shape of input at N and 2N members must not cost much more than
         # twice the steps (a bound "proportional to the input size" is a statement about growth; the fixed budget
         # A + B*|input| has a generous B and would let quadratic work through at these sizes)
